@@ -1,7 +1,9 @@
 """C14 — Module discovery matches the import system, independent of listing order.
 
 Workload: generated file trees over 2-3 search paths (+ directories added by ``.pth`` files):
-regular / nested / namespace packages, portions of one namespace spread over paths, ``.pyi``
+regular / nested / namespace packages, portions of one namespace spread over paths, legacy
+(pkgutil / pkg_resources-style) namespace packages whose ``__init__.py`` extends ``__path__`` (top-level
+and nested, five spellings of the declaration, declarations that are only mentioned), ``.pyi``
 siblings, ``__init__.pyi``-only directories, ``-stubs`` packages, compiled-looking file names,
 ``__pycache__``, non-module files, extension-less files named like packages, same names as file and
 directory and across paths.
@@ -9,8 +11,9 @@ directory and across paths.
 Oracle (M-REF): a fresh CPython child (``python -I -S``) whose ``sys.path`` starts with the search
 paths (``site.addsitedir`` for every search path when ``.pth`` files are present):
 ``importlib.util.find_spec`` for every dotted name derivable from the tree, ``pkgutil.walk_packages``
-for the requested package.  Generated modules are empty or hold one constant, so importing parents is
-harmless.
+for the *imported* requested package (its ``__path__`` after import, so that an executed
+``pkgutil.extend_path`` counts; the call itself is observed through a wrapper in the child).  Generated
+modules are empty or hold one constant and/or such a declaration, so importing them is harmless.
 
 M-INJ-LS: every load is repeated under K directory-listing orders (``vf.mon.listing``); the
 canonical JSON (``as_json(full=True, sort_keys=True)``, file paths included) must be identical for
@@ -21,6 +24,7 @@ from __future__ import annotations
 import json
 import os
 import random
+import re
 import shutil
 import subprocess
 import sys
@@ -35,8 +39,11 @@ PROP = "C14"
 LEVEL = "exploration"
 ANCHORS = ["finder.py", "loader.py"]
 RULE = ("seeded random file trees: 2-3 search paths (+0-2 directories reached through .pth files); per path the requested "
-        "name 'pkg' is absent / regular package / namespace portion / module file / file+directory / extension-less file / "
-        "__init__.pyi-only directory, optionally with a pkg-stubs package; package directories are filled recursively "
+        "name 'pkg' is absent / regular package / namespace portion / legacy namespace portion (__init__.py holding a "
+        "pkgutil.extend_path declaration in one of five spellings, with or without a pkg_resources try-branch, or only "
+        "mentioning it in a comment/string) / module file / file+directory / extension-less file / "
+        "__init__.pyi-only directory, optionally with a pkg-stubs package; 15% of the trees are built mostly from legacy "
+        "namespace portions; sub-packages declare a legacy namespace too in half of the trees; package directories are filled recursively "
         "(depth<=3) from the names {a,b,sub} in 1-3 forms each (x.py, x.pyi, x/ with and without __init__.py, "
         "x.cpython-312-x86_64-linux-gnu.so, x.abi3.so, x.so, x.pyd, x.pyc, x.cpython-312.pyc, x.pyo, extension-less x, "
         "x.txt, x.y.py, x.y.pyi, ...) plus __pycache__, hidden and dotted directories, data files; in half of the trees a "
@@ -44,7 +51,8 @@ RULE = ("seeded random file trees: 2-3 search paths (+0-2 directories reached th
         "tree is loaded under K listing orders by name and by path. distinct = digest of the tree; non-trivial = >=2 search "
         "paths and >=1 dotted name provided by >=2 different file-system entries")
 LEVEL_TEXT = ("Each generated tree is written to disk once; CPython (fresh child, sys.path = the search paths) gives "
-              "find_spec for every dotted name the tree can spell and pkgutil.walk_packages for the package; the real "
+              "find_spec for every dotted name the tree can spell, the __path__ of every imported package and "
+              "pkgutil.walk_packages over the imported package's __path__; the real "
               "GriffeLoader loads it under K injected directory-listing orders (all orders of every directory with <=3 "
               "entries in quick, <=4 in thorough), by dotted name and by directory path. Judged: every loaded module "
               "against CPython's spec (origin file, package / namespace / module kind, the five classification "
@@ -60,9 +68,16 @@ REQUIRED_COUNTERS = ["trees_judged", "loaded_modules_checked_against_find_spec",
                      "classification_checks", "permutations_compared", "by_path_compared", "listings_permuted",
                      "first_path_wins_checked", "compiled_names_checked", "namespace_packages_checked",
                      "stub_only_modules_checked", "pth_trees_judged", "file_spells_name_checked",
-                     "by_path_outside_search_paths_compared"]
+                     "by_path_outside_search_paths_compared", "legacy_namespace_packages_checked",
+                     "legacy_namespace_multi_portion_checked", "walker_modules_in_later_portion_checked",
+                     "walker_modules_in_later_legacy_portion_checked"]
 EXHAUSTIVE = {"quick": False, "thorough": False}
-ASSUMPTIONS = ["CPython 3.12 on Linux is the reference: .pyd/.pyo and foreign-ABI .so names are not modules there",
+ASSUMPTIONS = ["legacy namespace packages: the reference child has no pkg_resources, so every generated declaration reaches "
+               "pkgutil.extend_path (directly or in the except-ImportError branch); bare pkg_resources declarations and "
+               "<name>.pkg files are not generated. Whether such a package is *called* package or namespace package is not "
+               "judged (Griffe: namespace package, CPython: regular package with an extended __path__); its portions, the "
+               "files of its modules and the walker's result are",
+               "CPython 3.12 on Linux is the reference: .pyd/.pyo and foreign-ABI .so names are not modules there",
                "fake compiled files: discovery is judged at the level of (dotted name, file) handed to the loader",
                "a compiled/bytecode file and a source file with the same stem in one directory: which of the two "
                "represents the module is not judged (Griffe is a static analyser and inspection is off), only that the "
@@ -88,6 +103,19 @@ FILE_OF_FORM = {"py": "{n}.py", "pyi": "{n}.pyi", "so": "{n}" + SO, "abi3so": "{
                 "pyc": "{n}.pyc", "pyctag": "{n}.cpython-312.pyc", "pyo": "{n}.pyo", "noext": "{n}", "txt": "{n}.txt",
                 "dotted": "{n}.y.py", "dottedpyi": "{n}.y.pyi", "bak": "{n}.py.bak"}
 FAKE = "\x7fELF fake, never loaded\n"
+# Legacy ("pkg-style") namespace declarations: source text of an ``__init__.py`` that makes CPython extend the package's
+# ``__path__`` over every same-named directory of the parent's search path when the package is imported.  All variants are
+# executable in the reference child (which has no pkg_resources: the try/except variants fall back to pkgutil there).
+PKGUTIL_LINE = "__path__ = __import__({q}pkgutil{q}).extend_path(__path__, __name__)\n"
+PKGRES_LINE = "__import__({q}pkg_resources{q}).declare_namespace(__name__)\n"
+DECLARATIONS = [
+    ("pkgutil-inline", 6, PKGUTIL_LINE),
+    ("pkgres-or-pkgutil-inline", 2, "try:\n    " + PKGRES_LINE + "except ImportError:\n    " + PKGUTIL_LINE),
+    ("pkgres-or-pkgutil-imported", 1, "try:\n    " + PKGRES_LINE + "except ImportError:\n    from pkgutil import extend_path\n"
+                                      "    __path__ = extend_path(__path__, __name__)\n"),
+    ("pkgutil-imported", 2, "from pkgutil import extend_path\n__path__ = extend_path(__path__, __name__)\n"),
+    ("pkgutil-attribute", 1, "import pkgutil\n__path__ = pkgutil.extend_path(__path__, __name__)\n"),
+]
 
 
 # ------------------------------------------------------------------------------------------
@@ -100,6 +128,27 @@ def _content(rng: random.Random, rel: str) -> str:
     if rel.endswith((".txt", ".md", ".json", ".typed", ".bak")):
         return "data\n"
     return FAKE
+
+
+def _declaration(rng: random.Random, rel: str) -> str:
+    """Source of an ``__init__.py`` that declares a legacy namespace package (optionally with code around the declaration)."""
+    _names, weights, texts = zip(*DECLARATIONS)
+    text = rng.choices(texts, weights)[0].format(q=rng.choice(["'", "'", '"']))
+    if rng.random() < 0.07:
+        # decoy: the literal declaration is only mentioned (comment / string), CPython executes nothing: a regular package
+        line = PKGUTIL_LINE.format(q="'")
+        text = rng.choice(["# " + line, f"NOTE = {line.strip()!r}\n", '"""Formerly:\n\n    ' + line + '"""\n'])
+    r = rng.random()
+    if r < 0.25:
+        text = f"# namespace package\nWHERE = {rel!r}\n" + text
+    elif r < 0.4:
+        text += f"WHERE = {rel!r}\n"
+    return text
+
+
+def declares_namespace(content: str) -> bool:
+    """Input structure only: the source calls extend_path (all generated declarations do)."""
+    return "extend_path(__path__, __name__)" in content
 
 
 def _pick_forms(rng: random.Random, n: int) -> list[str]:
@@ -117,7 +166,8 @@ def _pick_forms(rng: random.Random, n: int) -> list[str]:
     return out
 
 
-def gen_dir(rng: random.Random, files: dict, dirs: list, rel: str, depth: int, stubs_only: bool = False) -> None:
+def gen_dir(rng: random.Random, files: dict, dirs: list, rel: str, depth: int, stubs_only: bool = False,
+            legacy_sub: float = 0.0) -> None:
     """Fill directory ``rel`` (already decided to be package-like) with children."""
     present = 0.62 if depth <= 1 else 0.45
     for name in ("a", "b", "sub"):
@@ -131,14 +181,17 @@ def gen_dir(rng: random.Random, files: dict, dirs: list, rel: str, depth: int, s
             if form in DIRFORMS:
                 sub = f"{rel}/{name}"
                 if form == "regdir":
-                    files[f"{sub}/__init__.py"] = _content(rng, f"{sub}/__init__.py")
+                    # (a sub-package can declare itself a legacy namespace too: its portions are then the same-named
+                    # directories of all portions of the parent)
+                    files[f"{sub}/__init__.py"] = (_declaration(rng, f"{sub}/__init__.py") if rng.random() < legacy_sub
+                                                   else _content(rng, f"{sub}/__init__.py"))
                     if rng.random() < 0.2:
                         files[f"{sub}/__init__.pyi"] = _content(rng, f"{sub}/__init__.pyi")
                 elif form == "stubdir":
                     files[f"{sub}/__init__.pyi"] = _content(rng, f"{sub}/__init__.pyi")
                 if depth < 3 and rng.random() < 0.85:
                     before = len(files)
-                    gen_dir(rng, files, dirs, sub, depth + 1, stubs_only)
+                    gen_dir(rng, files, dirs, sub, depth + 1, stubs_only, legacy_sub)
                     if len(files) == before and form == "nsdir":
                         if rng.random() < 0.5:
                             files[f"{sub}/x.py"] = _content(rng, f"{sub}/x.py")
@@ -171,19 +224,23 @@ def gen_dir(rng: random.Random, files: dict, dirs: list, rel: str, depth: int, s
 
 
 TOPFORMS = [("none", 2), ("regular", 5), ("namespace", 5), ("module", 2), ("dir+module", 1), ("ns+module", 1),
-            ("ghost", 1), ("stubinit", 1), ("module+pyi", 1)]
+            ("ghost", 1), ("stubinit", 1), ("module+pyi", 1), ("legacyns", 2)]
 
 
-def gen_top(rng: random.Random, files: dict, dirs: list, base: str, form: str) -> None:
+def gen_top(rng: random.Random, files: dict, dirs: list, base: str, form: str, legacy_sub: float = 0.0) -> None:
     d = f"{base}/{TOP}"
     if form in ("regular", "dir+module"):
         files[f"{d}/__init__.py"] = _content(rng, f"{d}/__init__.py")
         if rng.random() < 0.2:
             files[f"{d}/__init__.pyi"] = _content(rng, f"{d}/__init__.pyi")
-        gen_dir(rng, files, dirs, d, 1)
+        gen_dir(rng, files, dirs, d, 1, legacy_sub=legacy_sub)
+    if form == "legacyns":
+        # a portion of a legacy namespace package: a directory whose __init__.py declares the namespace
+        files[f"{d}/__init__.py"] = _declaration(rng, f"{d}/__init__.py")
+        gen_dir(rng, files, dirs, d, 1, legacy_sub=legacy_sub)
     if form in ("namespace", "ns+module"):
         before = len(files)
-        gen_dir(rng, files, dirs, d, 1)
+        gen_dir(rng, files, dirs, d, 1, legacy_sub=legacy_sub)
         if len(files) == before:
             if rng.random() < 0.7:
                 files[f"{d}/a.py"] = _content(rng, f"{d}/a.py")
@@ -216,12 +273,17 @@ def gen_case(rng: random.Random, perms: int) -> dict:
     dirs: list[str] = []
     names, weights = zip(*TOPFORMS)
     style = rng.random()
+    # nested legacy namespaces (a sub-package's __init__.py holding the declaration) in a part of the trees only
+    legacy_sub = rng.choice([0.0, 0.0, 0.15, 0.4])
     for sp in search:
         if style < 0.3:
             form = rng.choice(["namespace", "namespace", "namespace", "regular", "none", "ns+module"])
+        elif style < 0.45:
+            # legacy namespace spread over the search paths, sometimes meeting native portions / regular packages / modules
+            form = rng.choice(["legacyns"] * 8 + ["namespace", "namespace", "none", rng.choice(["regular", "module", "legacyns"])])
         else:
             form = rng.choices(names, weights)[0]
-        gen_top(rng, files, dirs, sp, form)
+        gen_top(rng, files, dirs, sp, form, legacy_sub)
         if form == "none" and not any(k.startswith(sp + "/") for k in files):
             dirs.append(sp)
         if rng.random() < 0.15:
@@ -240,7 +302,8 @@ def gen_case(rng: random.Random, perms: int) -> dict:
                 continue
             t = f"{dst}/{rel}"
             if _can_add(files, dirs, t):
-                files[t] = _content(rng, t)
+                # (an echoed __init__.py that declares a legacy namespace mostly declares it in the other portion too)
+                files[t] = (_declaration(rng, t) if declares_namespace(files[k]) and rng.random() < 0.8 else _content(rng, t))
     stubs_pkg = False
     if rng.random() < 0.22:
         sp = rng.choice(search)
@@ -265,7 +328,7 @@ def gen_case(rng: random.Random, perms: int) -> dict:
             for _ in range(rng.choice([1, 1, 2])):
                 ext = f"ext{nxt}"
                 nxt += 1
-                gen_top(rng, files, dirs, ext, rng.choice(["regular", "namespace", "module", "regular"]))
+                gen_top(rng, files, dirs, ext, rng.choice(["regular", "namespace", "module", "regular", "legacyns"]), legacy_sub)
                 if not any(k.startswith(ext + "/") for k in files):
                     dirs.append(ext)
                 lines.append("{ROOT}/" + ext)
@@ -333,13 +396,22 @@ def nontrivial(case: dict) -> bool:
 REF_SCRIPT = r"""
 import sys, json
 arg = json.loads(sys.stdin.read())
-import importlib.util, pkgutil, os
+import importlib, importlib.util, pkgutil, os
 sys.path[:0] = arg["paths"]
 if arg["site"]:
     import site
     for p in arg["paths"]:
         site.addsitedir(p)
 importlib.invalidate_caches()
+# which packages really had their __path__ extended by CPython (observed at the call, not read from the source text)
+EXTENDED = {}
+_extend_path = pkgutil.extend_path
+def extend_path(path, name):
+    before = list(path)
+    result = _extend_path(path, name)
+    EXTENDED[name] = {"before": before, "after": list(result)}
+    return result
+pkgutil.extend_path = extend_path
 def describe(name):
     try:
         spec = importlib.util.find_spec(name)
@@ -348,9 +420,21 @@ def describe(name):
     if spec is None:
         return {"found": False}
     locs = spec.submodule_search_locations
-    return {"found": True, "origin": spec.origin if spec.has_location else None,
-            "locations": None if locs is None else [os.path.realpath(p) for p in locs],
-            "loader": type(spec.loader).__name__ if spec.loader is not None else None}
+    out = {"found": True, "origin": spec.origin if spec.has_location else None,
+           "locations": None if locs is None else [os.path.realpath(p) for p in locs],
+           "loader": type(spec.loader).__name__ if spec.loader is not None else None, "extended": False}
+    if locs is not None and (out["origin"] is None or out["origin"].endswith(".py")):
+        # a package's search locations are those of the *imported* package: its __init__ may extend __path__ (legacy
+        # namespace packages).  Generated modules hold constants and such declarations only, so importing is harmless;
+        # find_spec / walk_packages import the parents of every dotted name anyway.
+        out["spec_locations"] = out["locations"]
+        try:
+            mod = importlib.import_module(name)
+            out["locations"] = [os.path.realpath(p) for p in mod.__path__]
+            out["extended"] = name in EXTENDED
+        except BaseException as exc:
+            out["import_error"] = type(exc).__name__ + ": " + str(exc)[:200]
+    return out
 out = {"sys_path": [p for p in sys.path], "specs": {}, "walk": [], "walk_errors": []}
 for name in arg["names"]:
     out["specs"][name] = describe(name)
@@ -381,6 +465,12 @@ def reference(case: dict, root: str, search: list[str] | None = None) -> dict:
     if proc.returncode != 0:
         raise ReferenceDied(f"reference child rc={proc.returncode}: {proc.stderr.decode(errors='replace')[-800:]}")
     return json.loads(proc.stdout)
+
+
+def multi_portion(desc: dict | None) -> bool:
+    """CPython searches the sub-modules of this package in a list of directories that can span several search paths:
+    a native namespace package, or a package whose __path__ was extended at import (legacy namespace package)."""
+    return ref_kind(desc) == "namespace" or (ref_kind(desc) == "package" and bool(desc.get("extended")))
 
 
 def ref_kind(desc: dict | None) -> str:
@@ -612,6 +702,17 @@ def judge_against_cpython(case: dict, root: str, ref: dict, obs: dict, rec) -> l
             elif notdir:
                 problems.append(Problem("namespace-portion-not-a-directory", name,
                                         f"{name}: namespace package with a portion that is not a directory", f, desc))
+            elif kind == "package" and desc.get("extended"):
+                # legacy namespace package: a regular package for the import system, whose __init__ extends __path__ over
+                # the same-named directories of the other search paths.  Whether it is *called* package or namespace
+                # package is not judged; its portions are: the directories CPython searches after importing it.
+                rec.count("legacy_namespace_packages_checked")
+                if len(desc["locations"]) >= 2:
+                    rec.count("legacy_namespace_multi_portion_checked")
+                if not portions_agree({_rp(p) for p in f if not (case.get("find_stubs_package") and (top + "-stubs") in p.split(os.sep))},
+                                      set(desc["locations"]), is_top):
+                    problems.append(Problem("namespace-portions", name, f"{name}: portions of the legacy namespace package "
+                                            "differ from the imported package's __path__", sorted(f), desc["locations"]))
             elif kind != "namespace":
                 problems.append(Problem("not-importable" if kind == "absent" else "classification", name,
                                         f"{name}: Griffe says namespace package, CPython says {kind}", f, desc))
@@ -667,6 +768,13 @@ def judge_against_cpython(case: dict, root: str, ref: dict, obs: dict, rec) -> l
         rec.count("walker_modules_checked")
         desc = specs.get(name) or {}
         kind = ref_kind(desc)
+        pdesc = specs.get(name.rsplit(".", 1)[0]) or {}
+        where = desc.get("origin") or (desc.get("locations") or [None])[0]
+        if where and pdesc.get("locations") and not _under(where, pdesc["locations"][0]):
+            # CPython takes this module from a second or later directory of its parent's search locations
+            rec.count("walker_modules_in_later_portion_checked")
+            if ref_kind(pdesc) == "package" and pdesc.get("extended"):
+                rec.count("walker_modules_in_later_legacy_portion_checked")
         if kind == "compiled":
             rec.count("compiled_names_checked")
             if name in mods or name in attempted_names:
@@ -688,7 +796,12 @@ def judge_against_cpython(case: dict, root: str, ref: dict, obs: dict, rec) -> l
 
 # ------------------------------------------------------------------------------------------
 # mechanism classifiers (predicates over tree structure + observation; see known_findings.d/C14.json)
-FINDINGS = ["C14-pth-listing-order", "C14-file-taken-as-namespace-portion", "C14-namespace-duplicate-last-portion-wins",
+INLINE_DECLARATION = re.compile(r"__path__ = __import__\([\"']pkgutil[\"']\)\.extend_path\(__path__, __name__\)|"
+                                r"__import__\([\"']pkg_resources[\"']\)\.declare_namespace\(__name__\)")
+FINDINGS = ["C14-legacy-namespace-loses-to-later-package", "C14-legacy-namespace-portion-order",
+            "C14-extend-path-declaration-not-recognised", "C14-nested-legacy-namespace-not-merged",
+            "C14-mentioned-declaration-taken-as-namespace",
+            "C14-pth-listing-order", "C14-file-taken-as-namespace-portion", "C14-namespace-duplicate-last-portion-wins",
             "C14-submodule-under-plain-module", "C14-stub-only-dir-taken-as-package", "C14-stubs-merged-then-replaced",
             "C14-seen-subpackage-descendants-leak", "C14-dotted-pyi-name-truncated",
             "C14-earlier-portion-dir-merged-into-regular-subpackage", "C14-stubs-only-namespace-keyerror"]
@@ -705,7 +818,34 @@ def _under(path: str | None, directory: str) -> bool:
     return rp == d or rp.startswith(d + os.sep)
 
 
-def classify(case: dict, root: str, ref: dict, obs: dict, problems: list[Problem]) -> None:  # noqa: C901, PLR0912
+class _NoCount:
+    def count(self, *_a) -> None:
+        pass
+
+
+def _spec_view(ref: dict) -> dict:
+    return {n: (d.get("found"), d.get("origin"), d.get("locations"), d.get("extended")) for n, d in ref["specs"].items()}
+
+
+def _winner_first_counterfactual(case: dict, root: str, ref: dict, tdesc: dict) -> dict | None:
+    """(kind, name) -> (observed, finding) of the problems that remain when the search path that holds the __init__.py
+    CPython imports for the top-level legacy namespace package is moved to the front (classified by the other
+    mechanisms).  None when that changes CPython's own answer."""
+    winner = os.path.relpath(tdesc["origin"], root).split(os.sep)[0]
+    search = [winner] + [s for s in case["search"] if s != winner]
+    try:
+        ref2 = reference(case, root, search)
+    except ReferenceDied:
+        return None
+    if _spec_view(ref2) != _spec_view(ref) or sorted(map(tuple, ref2["walk"])) != sorted(map(tuple, ref["walk"])):
+        return None
+    obs2 = observe(case, root, 0, case["request"], search)
+    problems2 = judge_against_cpython(case, root, ref2, obs2, _NoCount())
+    classify(case, root, ref2, obs2, problems2, order_counterfactual=False)
+    return {(q.kind, q.name): (json.dumps(q.observed, sort_keys=True, default=str), q.finding) for q in problems2}
+
+
+def classify(case: dict, root: str, ref: dict, obs: dict, problems: list[Problem], order_counterfactual: bool = True) -> None:  # noqa: C901, PLR0912
     specs = ref["specs"]
     mods = obs.get("modules", {})
     by_name: dict = {}
@@ -730,6 +870,7 @@ def classify(case: dict, root: str, ref: dict, obs: dict, problems: list[Problem
                 and (TOP + "-stubs") not in os.path.relpath(f, root).split(os.sep):
             stub_dirs[dotted] = os.path.dirname(f)
 
+    order_cf: dict = {}
     for p in sorted(problems, key=lambda q: ((q.name or "").count("."), q.name or "")):
         name = p.name or ""
         parent = name.rsplit(".", 1)[0] if "." in name else None
@@ -763,7 +904,7 @@ def classify(case: dict, root: str, ref: dict, obs: dict, problems: list[Problem
         # it from the earlier portion, Griffe kept the one from a later portion
         if p.kind in ("wrong-file", "classification", "stub-hides-runtime") and parent and info and not isinstance(info["file"], list):
             pdesc = specs.get(parent)
-            if ref_kind(pdesc) == "namespace":
+            if multi_portion(pdesc):
                 i = portion_index(expected_location(name), pdesc["locations"])
                 j = portion_index(info["file"], pdesc["locations"])
                 both_init = os.path.basename(info["file"]).startswith("__init__.") and \
@@ -772,6 +913,74 @@ def classify(case: dict, root: str, ref: dict, obs: dict, problems: list[Problem
                 if i is not None and j is not None and j > i and not both_init:
                     p.finding = "C14-namespace-duplicate-last-portion-wins"
                     continue
+        # ---- legacy namespace packages (CPython really executed pkgutil.extend_path for the package: desc["extended"]) -----
+        tdesc = specs.get(top_of(name)) or {}
+        tinfo = mods.get(top_of(name))
+        # C14-legacy-namespace-loses-to-later-package: CPython imports the top-level package from an __init__.py that extends
+        # __path__; Griffe took a regular package / module file of a LATER search path instead
+        if p.kind == "wrong-file" and not parent and tdesc.get("extended") and info and not isinstance(info["file"], list):
+            i, j = portion_index(tdesc["origin"], ref["sys_path"]), portion_index(info["file"], ref["sys_path"])
+            if i is not None and j is not None and j > i:
+                p.finding = "C14-legacy-namespace-loses-to-later-package"
+                continue
+        # C14-mentioned-declaration-taken-as-namespace: the __init__.py CPython imports for the top-level package contains the
+        # literal declaration but CPython did not execute it (a comment / string): a regular package for CPython, while Griffe
+        # made it a namespace portion (top-level module is a list of directories, or a later regular package / module won)
+        if not parent and ref_kind(tdesc) == "package" and not tdesc.get("extended") and info \
+                and INLINE_DECLARATION.search(case["files"].get(os.path.relpath(tdesc["origin"], root).replace(os.sep, "/"), "")):
+            if p.kind == "classification" and isinstance(info["file"], list):
+                p.finding = "C14-mentioned-declaration-taken-as-namespace"
+                continue
+            if p.kind == "wrong-file" and not isinstance(info["file"], list):
+                i, j = portion_index(tdesc["origin"], ref["sys_path"]), portion_index(info["file"], ref["sys_path"])
+                if i is not None and j is not None and j > i:
+                    p.finding = "C14-mentioned-declaration-taken-as-namespace"
+                    continue
+        # C14-legacy-namespace-portion-order: Griffe and CPython agree on the set of portions of the top-level legacy namespace,
+        # but CPython searches the directory of the imported __init__.py first and Griffe keeps search-path order; the problem
+        # at this name disappears when the search path holding that __init__.py is moved to the front (which leaves CPython's
+        # answer unchanged - verified - and makes Griffe's order CPython's), or turns into another observation that one of the
+        # other mechanisms explains
+        if order_counterfactual and p.kind in ("wrong-file", "not-importable", "walker-module-missing", "classification", "stub-hides-runtime") and parent \
+                and tdesc.get("extended") and tinfo and isinstance(tinfo["file"], list):
+            g_order = [_rp(x) for x in tinfo["file"] if (TOP + "-stubs") not in x.split(os.sep)]
+            c_order = tdesc["locations"]
+            if set(g_order) == set(c_order) and g_order != c_order:
+                if "cf" not in order_cf:
+                    order_cf["cf"] = _winner_first_counterfactual(case, root, ref, tdesc)
+                left = None if order_cf["cf"] is None else order_cf["cf"].get((p.kind, p.name), "gone")
+                if left == "gone" or (left is not None and left[1] and left[1] != "C14-legacy-namespace-portion-order"
+                                      and left[0] != json.dumps(p.observed, sort_keys=True, default=str)):
+                    p.finding = "C14-legacy-namespace-portion-order"
+                    continue
+        # A module CPython takes from a second or later directory of the extended __path__ of its closest legacy-namespace
+        # ancestor A, while Griffe has A as a regular package made of the directory of A's __init__.py alone:
+        #  C14-nested-legacy-namespace-not-merged: A is a sub-package (the finder looks for declarations at top level only)
+        #  C14-extend-path-declaration-not-recognised: A is top-level and its __init__.py spells the declaration in another way
+        #  than the two literal one-liners (e.g. `from pkgutil import extend_path`)
+        if p.kind in ("walker-module-missing", "stub-hides-runtime") and parent:
+            want = expected_location(name)
+            verdict = None
+            for a in [name.rsplit(".", i)[0] for i in range(1, name.count(".") + 1)]:
+                adesc = specs.get(a) or {}
+                if not (ref_kind(adesc) == "package" and adesc.get("extended")):
+                    continue
+                k = portion_index(want, adesc["locations"])
+                if k is None or k == 0:
+                    continue        # (taken from the directory of a's own __init__.py: look further up)
+                ainfo = mods.get(a)
+                if not ainfo or isinstance(ainfo["file"], list) or _rp(ainfo["file"]) != _rp(adesc["origin"]):
+                    break
+                if "." in a:
+                    verdict = "C14-nested-legacy-namespace-not-merged"
+                else:
+                    text = case["files"].get(os.path.relpath(adesc["origin"], root).replace(os.sep, "/"), "")
+                    if declares_namespace(text) and not INLINE_DECLARATION.search(text):
+                        verdict = "C14-extend-path-declaration-not-recognised"
+                break
+            if verdict:
+                p.finding = verdict
+                continue
         # C14-submodule-under-plain-module: an ancestor in Griffe's own tree is a plain module file (P.py / P.pyi), which
         # cannot have sub-modules
         if p.kind == "not-importable" and parent and info and not isinstance(info["file"], list):
@@ -808,7 +1017,9 @@ def classify(case: dict, root: str, ref: dict, obs: dict, problems: list[Problem
         anc = parent
         while anc:
             hit = [q for q in by_name.get(anc, []) if q.finding]
-            if hit and p.kind in ("not-importable", "wrong-file", "walker-module-missing", "classification", "stub-hides-runtime"):
+            if hit and (p.kind in ("not-importable", "wrong-file", "walker-module-missing", "classification", "stub-hides-runtime")
+                        # (directories of other search paths merged below a package that is regular for CPython)
+                        or (p.kind == "namespace-portions" and hit[0].finding == "C14-mentioned-declaration-taken-as-namespace")):
                 p.finding = hit[0].finding
                 break
             anc = anc.rsplit(".", 1)[0] if "." in anc else None
